@@ -43,8 +43,18 @@ var c16Sinks = map[string]bool{
 // c16Writes: the call produces output (a sink other than the construction of an error), itself
 // or - for a static call to a function of package pkg - somewhere below it.
 func c16Writes(ci ssa.CallInstruction, pkg string, seen map[*ssa.Function]bool) bool {
+	return c16WritesTo(ci, pkg, seen, false)
+}
+
+// c16WritesTo: with toWriterOnly, only sinks that write into an io.Writer handed to them count -
+// the process log and standard output are not what the remote station sees (a trace line at
+// function entry is not "the handshake has written output").
+func c16WritesTo(ci ssa.CallInstruction, pkg string, seen map[*ssa.Function]bool, toWriterOnly bool) bool {
 	call := ci.Common()
 	if n := callName(call); c16Sinks[n] {
+		if toWriterOnly && (strings.HasPrefix(n, "log.") || n == "fmt.Printf" || n == "fmt.Print" || n == "fmt.Println") {
+			return false
+		}
 		return n != "errors.New" && n != "fmt.Errorf"
 	}
 	callee := call.StaticCallee()
@@ -54,7 +64,7 @@ func c16Writes(ci ssa.CallInstruction, pkg string, seen map[*ssa.Function]bool) 
 	seen[callee] = true
 	for _, fn := range withClosures(callee) {
 		for _, in := range allCalls(fn) {
-			if c16Writes(in, pkg, seen) {
+			if c16WritesTo(in, pkg, seen, toWriterOnly) {
 				return true
 			}
 		}
@@ -166,7 +176,7 @@ func checkC16(c *Ctx, r *Report) {
 		exitRet := exit.Instrs[len(exit.Instrs)-1]
 		writes := false
 		eachInstr(exit.Parent(), func(_ *ssa.BasicBlock, _ int, in ssa.Instruction) {
-			if ci, isCall := in.(ssa.CallInstruction); isCall && c16Writes(ci, pkg, map[*ssa.Function]bool{}) {
+			if ci, isCall := in.(ssa.CallInstruction); isCall && c16WritesTo(ci, pkg, map[*ssa.Function]bool{}, true) {
 				if instrReaches(in, exitRet) {
 					writes = true
 				}
